@@ -23,18 +23,81 @@ def known_fns():
     return _KNOWN
 
 
+def _tokens(e, param_names):
+    """name-independent fingerprint of an initialiser: callee / method / field / path / literal tokens and referenced parameters"""
+    out = set()
+    for x in walk(e):
+        k = x.get("k")
+        if k in ("call", "ctor"):
+            c = callee(x)
+            if c:
+                out.add("c:" + c.split("::")[-1])
+        elif k == "mcall":
+            out.add("m:" + x["name"])
+        elif k == "field":
+            out.add("f:" + str(x["name"]))
+        elif k == "def":
+            out.add("d:" + (x.get("path") or "").split("::")[-1])
+        elif k == "lit" and "v" in x:
+            out.add("l:" + str(x["v"]))
+        elif k == "local" and x.get("name") in param_names:
+            out.add("p:" + x["name"])
+        elif k in ("binary", "unary"):
+            out.add("o:" + x["op"])
+        elif k in ("pvariant",):
+            out.add("v:" + x["path"].split("::")[-1])
+    return sorted(out)
+
+
+def binding_table(f):
+    """[name, type, kind, tokens] for every binding of the body in source order"""
+    pn = set()
+    for p in f.get("params", []):
+        for name, _ in pat_bindings(p):
+            pn.add(name)
+    rows = []
+    seen = set()
+
+    def add(pat, kind, toks):
+        for n in walk(pat):
+            if n.get("k") == "pbind" and id(n) not in seen:
+                seen.add(id(n))
+                rows.append([n["name"], n.get("ty"), kind, toks, n])
+    for n in walk(f["body"]):
+        k = n.get("k")
+        if k == "let":
+            add(n["pat"], "let", _tokens(n["init"], pn) if "init" in n else [])
+        elif k == "letexpr":
+            add(n["pat"], "letexpr", _tokens(n["init"], pn))
+        elif k == "for":
+            add(n["pat"], "for", _tokens(n["iter"], pn))
+        elif k == "match":
+            st = _tokens(n["scrut"], pn)
+            for arm in n["arms"]:
+                add(arm["pat"], "arm", st + ["v:" + x["path"].split("::")[-1] for x in walk(arm["pat"]) if x.get("k") == "pvariant"])
+        elif k == "closure":
+            for p in n["params"]:
+                add(p, "closure", [])
+    for n in walk(f["body"]):
+        if n.get("k") == "pbind" and id(n) not in seen:
+            seen.add(id(n))
+            rows.append([n["name"], n.get("ty"), "other", [], n])
+    return rows
+
+
 def signature_of(f):
     params = []
     for p in f.get("params", []):
         b = pat_bindings(p)
         params.append(b[0][0] if len(b) == 1 and p.get("k") == "pbind" else None)
-    binds = [[n["name"], n.get("ty")] for n in walk(f["body"]) if n.get("k") == "pbind"]
-    return {"params": params, "binds": binds}
+    return {"params": params, "binds": [r[:4] for r in binding_table(f)]}
 
 
 def rename_to_known(g):
     """names are role labels for the rules: parameters are renamed to the known names by position; local bindings are renamed
-       to the known names when the sequence of binding types is unchanged (a pure renaming).  Works in place on a private copy."""
+       to the known names when (a) the sequence of binding types is unchanged (a pure renaming) or (b) a binding of the same type and
+       kind with a sufficiently similar, unambiguous definition fingerprint exists.  Only bindings whose name is not a known name of this
+       function are touched.  Works in place on a private copy."""
     k = known_fns().get(g["path"])
     if not k:
         return
@@ -43,17 +106,51 @@ def rename_to_known(g):
         for want, p in zip(k["params"], g["params"]):
             if want and p.get("k") == "pbind" and p["name"] != want:
                 ren[p["id"]] = want
-    cur = [n for n in walk(g["body"]) if n.get("k") == "pbind"]
-    if len(cur) == len(k["binds"]) and all(n.get("ty") == t for n, (_, t) in zip(cur, k["binds"])):
-        for n, (want, _) in zip(cur, k["binds"]):
-            if n["name"] != want:
-                ren[n["id"]] = want
-    if not ren:
-        return
-    for n in list(walk(g["body"])) + [x for p in g.get("params", []) for x in walk(p)]:
-        if n.get("k") in ("local", "pbind") and n.get("id") in ren:
-            n["name"] = ren[n["id"]]
-    g["renamed"] = sorted(set(ren.values()))
+    # parameters first (fingerprints mention parameter names)
+    if ren:
+        for n in list(walk(g["body"])) + [x for p in g.get("params", []) for x in walk(p)]:
+            if n.get("k") in ("local", "pbind") and n.get("id") in ren:
+                n["name"] = ren[n["id"]]
+    cur = binding_table(g)
+    kb = k["binds"]
+    ren2 = {}
+    if len(cur) == len(kb) and all(r[1] == b[1] for r, b in zip(cur, kb)):
+        for r, b in zip(cur, kb):
+            if r[0] != b[0]:
+                ren2[r[4]["id"]] = b[0]
+    else:
+        known_names = {b[0] for b in kb}
+        cur_names = {r[0] for r in cur}
+        # candidates: known bindings whose name no longer occurs; current bindings whose name is not a known one
+        want = [b for b in kb if b[0] not in cur_names]
+        have = [r for r in cur if r[0] not in known_names]
+        scored = []
+        for bi, b in enumerate(want):
+            for ri, r in enumerate(have):
+                if r[1] != b[1] or r[2] != b[2]:
+                    continue
+                A, B = set(b[3]), set(r[3])
+                sc = (len(A & B) / float(len(A | B))) if (A | B) else (1.0 if r[2] != "let" else 0.0)
+                scored.append((sc, bi, ri))
+        scored.sort(reverse=True)
+        used_b, used_r = set(), set()
+        for sc, bi, ri in scored:
+            if bi in used_b or ri in used_r or sc < 0.5:
+                continue
+            # unambiguous: no other free candidate for this known binding within 0.15
+            rivals = [s2 for s2, b2, r2 in scored if b2 == bi and r2 != ri and r2 not in used_r and s2 > sc - 0.15]
+            rivals2 = [s2 for s2, b2, r2 in scored if r2 == ri and b2 != bi and b2 not in used_b and s2 > sc - 0.15]
+            if rivals or rivals2:
+                continue
+            used_b.add(bi)
+            used_r.add(ri)
+            ren2[have[ri][4]["id"]] = want[bi][0]
+    if ren2:
+        for n in list(walk(g["body"])):
+            if n.get("k") in ("local", "pbind") and n.get("id") in ren2:
+                n["name"] = ren2[n["id"]]
+    if ren or ren2:
+        g["renamed"] = sorted(set(ren.values()) | set(ren2.values()))
 
 
 def _mark_returns(n, inl_id):
